@@ -16,14 +16,15 @@ RULE = ("values: i64 boundaries, 0, negatives, integers above i64::MAX and above
         "numeric-looking / empty / non-ASCII / long strings, booleans, null, arrays, objects. Direct: both helpers along 6 serde "
         "routes each. Compiled: positions ID and ID! as plain fields, inside spread fragments (flatten), inside interface and "
         "union variants (internally tagged enums), on interfaces' common fields, aliased, under `normalization = rust`, with the "
-        "other-variant and skip-none options; String and Int fields as negative controls; absence at nullable IDs. ID under a "
-        "list is a hazard-corpus case (finding K3). Non-trivial = every (position, value) pair with a non-string value; distinct "
+        "other-variant and skip-none options; String and Int fields as negative controls; absence at nullable IDs. List positions "
+        "[ID!]!, [ID], [[ID!]], [ID!] as plain fields, inside a spread fragment and inside a variant, fed whole-list values "
+        "(mixed strings / integers, null elements, nulls, absence, non-lists, floats, nested lists). Non-trivial = every (position, value) pair with a non-string value; distinct "
         "by (document, position, value)")
 
 STR_VALUES = ["", "abc", "007", "-0", "1e3", "9223372036854775808", "é☃", "null", "true", " 12 ", "x" * 300, "a\"b\\c\n"]
 INT_VALUES = [0, 1, -1, 17, 2147483648, -2147483649, 9223372036854775807, -9223372036854775808]
 BAD_VALUES = [9223372036854775808, 18446744073709551615, 123456789012345678901234567890, 1.0, 1.5, -0.0, 1e3, 1e308, True, False, [], ["a"], [1], {}, {"id": "x"}]
-FLOOR = {"direct-observations": 400, "compiled-positions": 15, "compiled-vectors": 600, "absent-nullable": 8, "negative-controls": 20}
+FLOOR = {"direct-observations": 400, "compiled-positions": 15, "compiled-vectors": 600, "absent-nullable": 8, "negative-controls": 20, "list-position-vectors": 80}
 
 
 def reference(v, optional):
@@ -75,6 +76,48 @@ def direct(run):
     run.sample({"direct_value": "9223372036854775807", "observed": obs.get("d%d" % (len(STR_VALUES) + 6))}, limit=6)
 
 
+LIST_DOC = {"operations": [{"kind": "query", "name": "Q3", "vars": [], "sel": [
+    ["field", None, "ids", None, None], ["field", None, "oids", None, None], ["field", None, "idss", None, None],
+    ["field", None, "a", None, [["field", None, "name", None, None], ["spread", "LF"]]],
+    ["field", None, "node", None, [["typename"], ["inline", "A", [["field", None, "aids", None, None], ["field", "aliased", "oaids", None, None]]]]]]}],
+    "fragments": [{"name": "LF", "on": "A", "sel": [["field", None, "aids", None, None], ["field", None, "oaids", None, None]]}]}
+LIST_BASE = {"ids": ["a", "b"], "oids": ["c", None], "idss": [["d"], None], "a": {"name": "n", "aids": ["e"], "oaids": None},
+             "node": {"__typename": "A", "aids": ["f"], "aliased": ["g", None]}}
+I64MIN, I64MAX = -2**63, 2**63 - 1
+# (path, [(value, expected re-serialisation | ERR | ABSENT)])
+ERR, ABSENT = "ERR", "ABSENT"
+LIST_VECTORS = [
+    (("ids",), [(["x", 5, I64MIN, I64MAX], ["x", "5", str(I64MIN), str(I64MAX)]), ([], []), ([1.5], ERR), ([True], ERR), ([None], ERR), (None, ERR), ("x", ERR), (5, ERR),
+                ([["x"]], ERR), ([2**63], ERR), ({}, ERR), (ABSENT, ERR)]),
+    (("oids",), [(None, None), (ABSENT, None), (["x", None, 7], ["x", None, "7"]), ([], []), ([2**63], ERR), (5, ERR), ("x", ERR), ([1.0], ERR), ([[1]], ERR)]),
+    (("idss",), [([["a", 1], None, []], [["a", "1"], None, []]), (None, None), (ABSENT, None), ([[None]], ERR), ([["a", 1.5]], ERR), (["a"], ERR), ([[["a"]]], ERR)]),
+    (("a", "aids"), [([1, "2"], ["1", "2"]), (None, None), (ABSENT, None), ([None], ERR), ([False], ERR), ("1", ERR)]),
+    (("a", "oaids"), [([None, 0, "z"], [None, "0", "z"]), (None, None), (ABSENT, None), ([{}], ERR)]),
+    (("node", "aids"), [([I64MAX], [str(I64MAX)]), (None, None), (ABSENT, None), ([None], ERR), (7, ERR)]),
+    (("node", "aliased"), [([None], [None]), ([-1], ["-1"]), (ABSENT, None), ([1e3], ERR)]),
+]
+
+
+def list_cases(run):
+    rng = run.rng
+    s = id_schema(with_lists=True)
+    out = []
+    for oi, opts in enumerate([{}, {"normalization": "rust", "other_variant": True, "skip_none": True}]):
+        c = C.make_case("l%d" % oi, s, LIST_DOC, rng, options=opts, fmt=["sdl", "json"][oi])
+        vecs = [{"id": "base", "kind": "resp", "target": "Q3", "input": LIST_BASE, "expect": {"ok": True, "reser": LIST_BASE}, "label": "conforming"}]
+        for pi, (path, table) in enumerate(LIST_VECTORS):
+            for vi, (val, exp) in enumerate(table):
+                inp = set_path(LIST_BASE, path, None, delete=True) if val == ABSENT else set_path(LIST_BASE, path, val)
+                vec = {"id": "L%d.%d" % (pi, vi), "kind": "resp", "target": "Q3", "input": inp, "position_kind": "list",
+                       "label": "list<-%s@%s" % (json.dumps(val)[:40], "/".join(path))}
+                vec["expect"] = {"ok": False} if exp == ERR else {"ok": True, "reser": set_path(LIST_BASE, path, exp)}
+                vecs.append(vec)
+        c["vectors"] = vecs
+        c["positions"] = len(LIST_VECTORS)
+        out.append(c)
+    return out
+
+
 def id_schema(with_lists=False):
     s = Schema()
 
@@ -82,7 +125,8 @@ def id_schema(with_lists=False):
         return {"name": n, "type": t, "args": [], "deprecated": None}
     common = [f("id", NN(T("ID"))), f("oid", T("ID"))]
     s.add("Node", {"kind": "interface", "fields": [dict(x) for x in common]})
-    s.add("A", {"kind": "object", "implements": ["Node"], "fields": [dict(x) for x in common] + [f("name", T("String")), f("n", T("Int")), f("a", T("A")), f("aid", T("ID"))]})
+    a_extra = [f("aids", L(NN(T("ID")))), f("oaids", L(T("ID")))] if with_lists else []
+    s.add("A", {"kind": "object", "implements": ["Node"], "fields": [dict(x) for x in common] + [f("name", T("String")), f("n", T("Int")), f("a", T("A")), f("aid", T("ID"))] + a_extra})
     s.add("B", {"kind": "object", "implements": ["Node"], "fields": [dict(x) for x in common] + [f("bid", T("ID")), f("rbid", NN(T("ID")))]})
     s.add("U", {"kind": "union", "members": ["A", "B"]})
     q = [f("a", T("A")), f("node", T("Node")), f("u", T("U")), f("plain", T("ID")), f("req", NN(T("ID"))), f("str", T("String")), f("num", T("Int")), f("nodes", L(NN(T("Node"))))]
@@ -224,6 +268,8 @@ def execute(run, cases, tag="b0"):
                 run.count("absent-nullable")
             if pk in ("str", "int"):
                 run.count("negative-controls")
+            if pk == "list":
+                run.count("list-position-vectors")
             sym = C.judge_resp(vec, o["obs"].get(vec["id"]))
             if sym is None:
                 run.held()
@@ -258,6 +304,7 @@ def main(run):
                        "documents are fixed (every structural ID position once); values and options vary"]
     direct(run)
     cs = compiled_cases(run)
+    cs += list_cases(run)
     cs += hazards.cases_for(run, "C16")
     execute(run, cs)
     return run.finish(floor=FLOOR)
